@@ -48,7 +48,7 @@ THEOREMS = {
 }
 RULE = ('databases over all seventeen entry types, each entry with a random subset of the fields its template reads (values with braces, '
         'hyphen runs, TeX: -- --- \\& {\\"o} ~ quotes, letters outside ASCII; persons in all name forms incl. lineage, hyphens, TeX accents, '
-        'non-ASCII; cross-references), every citation list shape (subset / permutation / "*" / unknown key), EVERY combination formatting '
+        'non-ASCII; cross-references; volume / number / series with unprotected upper-case letters inside - roman numerals, acronyms, title-case series - in the five types that print them), every citation list shape (subset / permutation / "*" / unknown key), EVERY combination formatting '
         'style x label style x sorting style x name style x abbreviate_names on one database plus random combinations; the expected sorting / '
         'labels / name style / abbreviation are derived from the CASE (never from the live style object); every case is also run through '
         'PybtexEngine().format_from_string with the configuration as keyword arguments and each of the four backends; the templates of the '
@@ -628,6 +628,64 @@ def _norm(s):
     return re.sub(r'-+', '-', re.sub(r'[\s\xa0]+', ' ', s)).lower()
 
 
+def _ws(s):
+    """up to white space only (a tie is a space): letter case and hyphens are kept"""
+    return re.sub(r'[\s\xa0]+', ' ', s)
+
+
+# The documented case transformations of the shipped styles ("up to the documented case ... transformations"): a title / booktitle may be
+# capitalised (format_title: first letter raised, the rest lower-cased, brace-protected text untouched), the edition is lower-cased
+# (format_edition), and the first letter of a sentence may be raised (sentence(capfirst=True): the volume / number / series sentence of
+# book and inbook).  Nothing else changes the case of a field: every other field keeps the case of every letter but (possibly) its first.
+CASE_CHANGING_FIELDS = {'title': 'capitalize', 'booktitle': 'capitalize', 'edition': 'lower'}
+
+
+def _cased(decoded, mode):
+    """the characters of a decoded field value (braces are markup) after a documented case transformation, by brace depth:
+    'none' = as written; 'lower' = text outside braces lower-cased; 'capitalize' = first character raised (outside braces), text outside
+    braces lower-cased after it; 'capfirst' = first character raised (outside braces), nothing else"""
+    out, depth = [], 0
+    for ch in decoded:
+        if ch == '{':
+            depth += 1
+        elif ch == '}':
+            depth -= 1
+        elif depth > 0 or mode == 'none':
+            out.append(ch)
+        elif not out and mode in ('capitalize', 'capfirst'):
+            out.append(ch.upper())
+        elif mode in ('lower', 'capitalize'):
+            out.append(ch.lower())
+        else:
+            out.append(ch)
+    return ''.join(out)
+
+
+def _case_variants(name, decoded, dashify):
+    """the spellings under which the text of a printed field may appear: as written or with its first letter raised; a title / booktitle
+    also capitalised, an edition also lower-cased (and that with the first letter raised)"""
+    modes = ['none', 'capfirst']
+    doc = CASE_CHANGING_FIELDS.get(name.lower())
+    if doc == 'capitalize':
+        modes.append('capitalize')
+    if doc == 'lower':
+        modes += ['lower', 'capitalize']
+    if dashify:
+        # the documented dash transformation first: every run of hyphens outside braces is one en dash (a hyphen in the text backend)
+        out, depth, run = [], 0, False
+        for ch in decoded:
+            depth += (ch == '{') - (ch == '}')
+            if ch == '-' and depth == 0:
+                if not run:
+                    out.append('-')
+                run = True
+            else:
+                out.append(ch)
+                run = run and ch in '{}'      # braces are markup: a run of hyphens goes on across an empty group (as in _dash_atoms)
+        decoded = ''.join(out)
+    return [_ws(_cased(decoded, m)) for m in modes]
+
+
 def _word_text(w):
     """the text of a name word: decoded, braces are markup"""
     return _strip_braces(decode(w))
@@ -803,6 +861,7 @@ def oracle(case, io, reply):
         except _Missing:
             continue
         low = _norm(plain)
+        plain_ws = _ws(plain)
         atoms = None
         for f, fn, raw in printed:
             val = field_value(f)
@@ -814,6 +873,13 @@ def oracle(case, io, reply):
             want = _norm(_strip_braces(dec))
             if want.strip() and want not in low:
                 fails.append('field_coverage: field %s = %r (decoded %r) of entry %r is printed by the template but missing from %r' % (f, val, dec, g[0], plain))
+            # ... "up to the DOCUMENTED case transformations": the letters of the value keep their case; only the first letter may be
+            # raised (start of a capfirst sentence), a title / booktitle may be capitalised and an edition lower-cased
+            variants = _case_variants(f, dec, fn == 'dashify')
+            if variants[0].strip() and want in low and not any(v in plain_ws for v in variants):
+                fails.append('field_case: field %s = %r (decoded %r) of entry %r is printed with another letter case: none of %r occurs in %r '
+                             '(documented case transformations: title / booktitle capitalised, edition lower-cased, first letter of a sentence raised)' % (
+                                 f, val, dec, g[0], sorted(set(variants)), plain))
             for m in re.finditer(r'\{([^{}]+)\}', dec):
                 if m.group(1) not in plain:
                     fails.append('protected_case: %r of the field %s of %r does not keep its case in %r' % (m.group(1), f, g[0], plain))
@@ -1078,6 +1144,68 @@ def gen_names(rng):
     return _configure(rng, case, 0.6)
 
 
+# volume / number / series with unprotected upper-case letters that are not the first character (roman numerals, acronyms, title-case
+# series): the sentence "Volume IV of Lecture Notes in Computer Science." of book / inbook (sentence(capfirst=True): only the first letter
+# may change) and the "volume IV of ..." fragment of incollection / inproceedings / proceedings
+SERIES_TYPES = ['book', 'inbook', 'incollection', 'inproceedings', 'proceedings']
+SERIES_VALUES = {
+    'volume': ['IV', 'XII', 'B2', '3', 'iV'],
+    'number': ['VII', '7B', '7', 'No. X', 'xI'],
+    'series': ['Lecture Notes in NASA Computer Science', 'Lecture Notes in {NASA} Computer Science', 'The Art of Computer Programming',
+               'monographs in Discrete Mathematics', 'LNCS', '{LNCS} Tutorials', 'lower case series', 'a {B} C', 'IEEE-Press Series on RF'],
+}
+SERIES_PATTERNS = [('volume', 'series'), ('number', 'series'), ('series',), ('volume',), ('number',), ('volume', 'number', 'series')]
+
+
+def _series_entry(t, key, present, i, extra=()):
+    fs = [['author', 'Donald E. Knuth'], ['editor', 'Ed Itor'], ['title', 'Graph Algorithms'], ['booktitle', 'Collected Things'],
+          ['publisher', 'Springer'], ['year', '1999'], ['chapter', '5'], ['pages', '1--10']]
+    fs = [f for f in fs if f[0] not in extra]
+    for j, f in enumerate(present):
+        pool = SERIES_VALUES[f]
+        fs.append([f, pool[(i + j) % len(pool)]])
+    return {'type': t, 'key': key, 'fields': fs}
+
+
+def series_cases():
+    """Deterministic family: every type that prints volume / number / series x every pattern of presence x every value of the pools
+    (one-entry databases, the four styles in turn) + one database per style holding all five types."""
+    out = []
+    n = max(len(v) for v in SERIES_VALUES.values())
+    for ti, t in enumerate(SERIES_TYPES):
+        for pi, present in enumerate(SERIES_PATTERNS):
+            for i in range(n):
+                out.append({'op': 'pystyle', 'entries': [_series_entry(t, 's%d' % i, present, i)], 'citations': ['*'], 'min_crossrefs': 2,
+                            'style': STYLES[(ti + pi + i) % 4]})
+    for si, st in enumerate(STYLES):
+        for pi, present in enumerate(SERIES_PATTERNS):
+            entries = [_series_entry(t, 'e%d' % k, present, si + pi + k) for k, t in enumerate(SERIES_TYPES)]
+            out.append({'op': 'pystyle', 'entries': entries, 'citations': ['e%d' % k for k in (3, 0, 4, 1, 2)], 'min_crossrefs': 2, 'style': st})
+    return out
+
+
+def gen_series(rng):
+    """Random family: one to four entries of the types that print volume / number / series, random pattern of presence, values from the
+    pools or composed of random words with upper-case letters inside, some inherited from a cross-referenced parent; any configuration."""
+    words = ['Notes', 'in', 'NASA', 'of', 'Computer', 'Science', 'the', 'ACM', '{IEEE}', 'Series', 'on', 'McGraw', 'TeX', '{B}ooks', 'vol', 'IIb']
+    n = rng.randint(1, 4)
+    entries = []
+    for k in range(n):
+        present = [f for f in ('volume', 'number', 'series') if rng.random() < 0.7]
+        e = _series_entry(rng.choice(SERIES_TYPES), 'r%d' % k, (), 0, extra=('editor',) if rng.random() < 0.3 else ())
+        for f in present:
+            v = rng.choice(SERIES_VALUES[f]) if rng.random() < 0.5 else ' '.join(rng.choice(words) for _ in range(rng.randint(1, 5) if f == 'series' else 1))
+            e['fields'].append([f, v])
+        entries.append(e)
+    if n > 1 and rng.random() < 0.3:
+        # the last entry is the parent of the first: series / volume it does not have itself are inherited
+        entries[0]['fields'] = [f for f in entries[0]['fields'] if f[0] not in ('series', 'volume') or rng.random() < 0.5] + [['crossref', entries[-1]['key']]]
+    rng.shuffle(entries[0]['fields'])
+    case = {'op': 'pystyle', 'entries': entries, 'citations': ['*'] if rng.random() < 0.5 else [e['key'] for e in entries][:rng.randint(1, n)],
+            'min_crossrefs': rng.choice([1, 2]), 'style': rng.choice(STYLES)}
+    return _configure(rng, case)
+
+
 def config_matrix():
     """One database (ties, a lineage part, a von part, first names to abbreviate, letters outside ASCII; the citation order is not the
     sorted order) under EVERY combination style x label_style x sorting_style x name_style x abbreviate_names (absent = the default)."""
@@ -1115,6 +1243,8 @@ def gen_cases(tier, rng, info):
     for _ in range(150 if tier == 'quick' else 2000):
         cases.append(gen_ties(rng))
     cases += config_matrix()
+    # volume / number / series with upper-case letters inside (the capfirst sentence of book / inbook)
+    cases += series_cases()
     # every type with all fields and with the minimal required fields, every style
     for t in TYPES:
         full = [[f, VALUES.get(f, GENERIC)[0]] for f in FIELDS] + [['author', 'Donald E. Knuth and Leslie Lamport'], ['editor', 'Ed Itor']]
@@ -1146,11 +1276,14 @@ def gen_cases(tier, rng, info):
             cases.append({'op': 'pystyle', 'entries': [{'type': t, 'key': 'blank', 'fields': fs}], 'citations': ['blank'], 'min_crossrefs': 2, 'style': 'unsrt'})
     info['exhaustive'] = False
     info['scope'] = ('%d systematic cases (every configuration combination on one database; 17 types x full / empty / blank-field entries x styles; '
-                     'every value of the pools in every type) + seeded random databases' % len(cases))
+                     'every value of the pools in every type; volume / number / series with upper-case letters inside x 5 types x 6 patterns of presence) '
+                     '+ seeded random databases' % len(cases))
     for _ in range(600 if tier == 'quick' else 3000):
         cases.append(gen_names(rng))
     for _ in range(1000 if tier == 'quick' else 12000):
         cases.append(gen_case(rng))
+    for _ in range(60 if tier == 'quick' else 1500):
+        cases.append(gen_series(rng))
     _PENDING[:] = cases
     # function by function (one driver op each, see props/c07_fn.py)
     fn = c07_fn.gen_cases(tier, rng)
